@@ -237,6 +237,23 @@ def step (st : St) (args : List String) : St × String :=
           | none => none
         | _, _ => none
       else none)))
+  | ["wseq", w, coin, lt] =>
+    -- CreateRawTransaction with one explicit input: constructTxIn's sequence rule (tx.go)
+    match coin.splitOn ":", lt.toNat? with
+    | [t, i], some lock =>
+      match i.toNat? with
+      | none => (st, "bad-op")
+      | some idx =>
+        let dflt := if lock ≠ 0 then 2^64 - 2 else 2^64 - 1
+        let m := match (coinsOf st.store w).find? (fun c => c.tx = t && c.idx = idx) with
+          | some c => if c.cred.cls = .staking then s!"seq {c.cred.maturity}" else s!"seq {dflt}"
+          | none => "err"
+        -- spec: a staking deposit must be spent with sequence frozen+1 (consensus sequence lock)
+        let sp := match (Spec.Chain.coinsOfWallet (Spec.Chain.ledgerOf st.own st.specChain) w).find? (fun c => c.tx = t && c.idx = idx) with
+          | some c => (match c.cls with | .stk f => s!"seq {f + 1}" | _ => s!"seq {dflt}")
+          | none => "err"
+        (st, m ++ "\t" ++ sp)
+    | _, _ => (st, "bad-op")
   | ["wallets"] =>
     (st, joinSorted (st.store.status.map (fun e =>
       e.1 ++ ":" ++ (if e.2.removed then "removing" else match e.2.synced with
